@@ -25,6 +25,24 @@ struct Cursor {
 };
 static std::map<std::string, Cursor> g_cursors;
 
+// (version, node) pairs collected by the most recent read that asked for them
+static std::vector<std::pair<node_version64_body, node_version64*>> g_last_nv;
+
+static std::map<const void*, std::uint64_t> version_snapshot(const std::string& name_raw) {
+    std::map<const void*, std::uint64_t> m;
+    tree_instance* ti{};
+    if (find_storage(name_raw, &ti) != status::OK) return m;
+    vh::Walker wk;
+    wk.walk_tree(ti);
+    for (auto& e : wk.vptr_id) {
+        node_version64_body b = reinterpret_cast<const node_version64*>(e.first)->get_body();
+        std::uint64_t x;
+        std::memcpy(&x, &b, 8);
+        m[e.first] = x;
+    }
+    return m;
+}
+
 static std::vector<std::string> split(const std::string& s) {
     std::vector<std::string> out;
     std::istringstream is(s);
@@ -94,6 +112,78 @@ int main(int argc, char** argv) {
             }
             continue;
         }
+        if (w[0] == "phantom" && w.size() == 10) {
+            // phantom <sess> <storage> <lkey> <lend> <rkey> <rend> <max> <r2l> <nprobe>
+            // Runs the scan (silently) to learn what it covers, then expands into
+            //   scan … 1 ; put probe ; nvcheck ; remove probe      for absent keys of the covered interval
+            std::string n, lk, rk;
+            vh::unhex(w[2], n); vh::unhex(w[3], lk); vh::unhex(w[5], rk);
+            std::size_t mx = std::strtoull(w[7].c_str(), nullptr, 10);
+            bool r2l = w[8] == "1";
+            std::size_t nprobe = std::strtoull(w[9].c_str(), nullptr, 10);
+            std::vector<std::tuple<std::string, char*, std::size_t>> tl;
+            auto rc = scan<char>(n, lk, ep(w[4]), rk, ep(w[6]), tl, nullptr, mx, r2l);
+            std::string scan_line = "scan " + w[2] + " " + w[3] + " " + w[4] + " " + w[5] + " " + w[6] + " " + w[7] + " " + w[8] + " 1";
+            if (rc != status::OK) { pending.push_back(scan_line); continue; }
+            // covered interval: the whole interval, or up to the last produced entry when limited
+            auto in_iv = [&](const std::string& k) {
+                if (w[4] == "I" && k < lk) return false;
+                if (w[4] == "E" && k <= lk) return false;
+                if (w[6] == "I" && k > rk) return false;
+                if (w[6] == "E" && k >= rk) return false;
+                bool limited = (mx != 0 && tl.size() >= mx) || r2l;
+                if (limited) {
+                    if (tl.empty()) return false;
+                    const std::string& last = std::get<0>(tl.back());
+                    if (!r2l && k > last) return false;
+                    if (r2l && k < last) return false;
+                }
+                return true;
+            };
+            std::vector<std::string> cands;
+            auto add_around = [&](const std::string& k) {
+                cands.push_back(k + std::string(1, '\0'));
+                cands.push_back(k + "a");
+                if (!k.empty()) { cands.push_back(k.substr(0, k.size() - 1)); std::string z = k; z.back() = static_cast<char>(z.back() - 1); cands.push_back(z); z.push_back('\xff'); cands.push_back(z); }
+                if (k.size() > 8) { cands.push_back(k.substr(0, 8)); cands.push_back(k.substr(0, 8) + std::string(1, '\0')); }
+            };
+            add_around(lk); add_around(rk);
+            for (auto& e : tl) add_around(std::get<0>(e));
+            cands.push_back("");
+            cands.push_back("m");
+            std::vector<std::string> probes;
+            for (auto& c : cands) {
+                if (probes.size() >= nprobe) break;
+                if (!in_iv(c) || c.size() > 200) continue;
+                std::pair<char*, std::size_t> g{};
+                if (get<char>(n, c, g) != status::WARN_NOT_EXIST) continue;
+                if (std::find(probes.begin(), probes.end(), c) != probes.end()) continue;
+                probes.push_back(c);
+            }
+            // expansion is consumed from the back
+            for (auto it = probes.rbegin(); it != probes.rend(); ++it) {
+                pending.push_back("remove " + w[1] + " " + w[2] + " " + hex(*it));
+                pending.push_back("nvcheck");
+                pending.push_back("put " + w[1] + " " + w[2] + " " + hex(*it) + " 70 1 0 none");
+                pending.push_back(scan_line);
+            }
+            if (probes.empty()) pending.push_back(scan_line);
+            continue;
+        }
+        if (w[0] == "phantom_get" && w.size() == 4) {
+            // phantom_get <sess> <storage> <key>: a miss with checked_version, then the same key inserted
+            std::string n, k;
+            vh::unhex(w[2], n); vh::unhex(w[3], k);
+            std::pair<char*, std::size_t> g{};
+            bool miss = get<char>(n, k, g) == status::WARN_NOT_EXIST;
+            if (miss) {
+                pending.push_back("remove " + w[1] + " " + w[2] + " " + w[3]);
+                pending.push_back("nvcheck");
+                pending.push_back("put " + w[1] + " " + w[2] + " " + w[3] + " 70 1 0 none");
+            }
+            pending.push_back("get " + w[2] + " " + w[3] + " 1");
+            continue;
+        }
         std::cout << "> " << line << "\n";
         const std::string& op = w[0];
         std::ostringstream r;
@@ -147,6 +237,8 @@ int main(int argc, char** argv) {
                 status rc{};
                 inserted_node_info ini{nullptr, nullptr};
                 node_version64* legacy = nullptr;
+                std::map<const void*, std::uint64_t> vbefore;
+                if (w[7] == "new") vbefore = version_snapshot(n);
                 if (w[7] == "new") {
                     rc = put<char>(t, n, k, v.data(), v.size(), &created, static_cast<value_align_type>(al), uniq, &ini);
                 } else if (w[7] == "legacy") {
@@ -172,6 +264,25 @@ int main(int argc, char** argv) {
                     if (w[7] == "new") {
                         r << " mod " << (ini.modified_nvp ? wk.id_of(ini.modified_nvp) : "-") << " cre "
                           << (ini.created_nvp ? wk.id_of(ini.created_nvp) : "-");
+                        // direct oracle (C12): the border nodes whose version word differs before and
+                        // after the call are exactly {modified}; `created` is a node that did not exist
+                        auto vafter = version_snapshot(n);
+                        std::vector<const void*> changed;
+                        for (auto& e : vafter) {
+                            auto it = vbefore.find(e.first);
+                            if (it != vbefore.end() && it->second != e.second) changed.push_back(e.first);
+                        }
+                        bool ok = true;
+                        if (ini.modified_nvp == nullptr) ok = changed.empty() && ini.created_nvp == nullptr;
+                        else {
+                            // the very first insert into a never-used root reports that root
+                            ok = (changed.size() == 1 && changed[0] == ini.modified_nvp) ||
+                                 (changed.empty() && vbefore.find(ini.modified_nvp) == vbefore.end());
+                            if (ini.created_nvp != nullptr)
+                                ok = ok && vbefore.find(ini.created_nvp) == vbefore.end() && vafter.find(ini.created_nvp) != vafter.end();
+                        }
+                        r << " vchg " << (ok ? "ok" : "BAD") ;
+                        if (!ok) r << "(" << changed.size() << " changed)";
                     } else {
                         r << " mod " << (legacy ? wk.id_of(legacy) : "-");
                     }
@@ -191,6 +302,8 @@ int main(int argc, char** argv) {
                 else r << " " << val_str(g.first, g.second);
             }
             if (want && rc == status::WARN_NOT_EXIST) {
+                g_last_nv.clear();
+                if (cv.second != nullptr) g_last_nv.emplace_back(cv.first, cv.second);
                 if (cv.second == nullptr) r << " nv -";
                 else {
                     vh::Walker wk;
@@ -220,6 +333,7 @@ int main(int argc, char** argv) {
                 else r << val_str(std::get<1>(e), std::get<2>(e));
             }
             if (nodes) {
+                g_last_nv = nv;
                 vh::Walker wk;
                 walk_storage(n, wk);
                 r << " nv " << nv.size();
@@ -312,6 +426,11 @@ int main(int argc, char** argv) {
             r << "live " << (vh::ledger().n_aligned - base_n) << " " << (vh::ledger().bytes_aligned - base_bytes)
               << " reach " << (reach_nodes + reach_vals) << " " << reach_bytes << " errs " << vh::ledger().errors;
             if (vh::ledger().errors) r << " first: " << vh::ledger().first_error;
+        } else if (op == "nvcheck") {
+            // re-read the stable version of every collected node: at least one must differ
+            std::size_t stale = 0;
+            for (auto& e : g_last_nv) if (e.second->get_stable_version() != e.first) ++stale;
+            r << "stale " << (stale > 0 ? 1 : 0) << " of " << g_last_nv.size();
         } else if (op == "sleep" && w.size() == 2) {
             std::this_thread::sleep_for(std::chrono::milliseconds(std::strtoull(w[1].c_str(), nullptr, 10)));
             r << "ok";
